@@ -91,6 +91,13 @@ Theorem C19_pagination_partition : forall U ops n, (1 <= n)%nat ->
   NoDup (map fst (pairs s)) /\ NoDup (map fst (trios s)) /\ NoDup (map fst (vaults s)) /\ NoDup (map fst (incentives s)).
 Proof. exact pagination_partition_reachable. Qed.
 
+(* a created entry records the request (assets as given, key of the set, creating operation); the harness compares each entry with
+   the child contract's own answer on every operation *)
+Theorem C19_entry_matches_request : forall U s a b s', inv U s -> step U s (CreatePair a b) = Ok s' ->
+  lookup_pair U s' a b = Some (mkPairE a b (tick s)) /\ lookup_pair U s' b a = Some (mkPairE a b (tick s)) /\
+  In (pkey U a b, mkPairE a b (tick s)) (pairs s') /\ a <> b.
+Proof. exact entry_matches_request. Qed.
+
 (* a removed entry disappears from lookups and listings and can be created again (any order of the assets); nothing else moves *)
 Theorem C19_remove_then_recreate_pair : forall U s k e a b x y, inv U s -> In (k, e) (pairs s) ->
   same_set2 (pair_set e) (a, b) -> same_set2 (a, b) (x, y) -> in_universe U x = true -> in_universe U y = true -> x <> y ->
@@ -159,6 +166,7 @@ Print Assumptions C19_pagination_full_statement_refuted.
 Print Assumptions C19_lookup_pair_sound.
 Print Assumptions C19_fresh_pair_created.
 Print Assumptions C19_pagination_partition.
+Print Assumptions C19_entry_matches_request.
 Print Assumptions C19_remove_then_recreate_pair.
 Print Assumptions C19_remove_then_recreate_vault.
 Print Assumptions C19_routes_only_registered.
